@@ -37,6 +37,17 @@ def when(draw, lo=-3, hi=12):
 
 @st.composite
 def leaf(draw):
+    # ['holiday', leaf, [days]]: an instance of a USER SUBCLASS of the leaf's calendar class that overrides get_available_units
+    # (0 on the listed days, the inherited answer otherwise) - operators must use the operand's value, not its week table
+    if draw(st.integers(0, 5)) == 0:
+        inner = draw(plain_leaf())
+        hol = sorted({iso(B + timedelta(days=draw(st.integers(-3, 12)))) for _ in range(draw(st.integers(1, 4)))})
+        return ['holiday', inner, hol]
+    return draw(plain_leaf())
+
+
+@st.composite
+def plain_leaf(draw):
     k = draw(st.sampled_from(['weekly', 'weekly', 'weeklydict', 'direct', 'fixed']))
     start = end = None
     if k != 'direct' and draw(st.integers(0, 2)) == 0:
@@ -87,6 +98,8 @@ def bounds_of(t):
         out += list(t[1]) + list(t[2])
     elif t[0] in OPS:
         out += bounds_of(t[1]) + bounds_of(t[2])
+    elif t[0] == 'holiday':
+        out += bounds_of(t[1]) + list(t[2])
     elif t[0] == 'dup':
         out += bounds_of(t[2])
     return [b for b in out if b]
@@ -124,7 +137,28 @@ def build(t, ctor='op'):
     n.spec = t
     n.kids = []
     k = t[0]
-    if k == 'weekly':
+    if k == 'holiday':
+        inner = build(t[1], ctor).cal
+        hol = {day(dt(x)) for x in t[2]}
+        base = type(inner)
+
+        def get_available_units(self, date, _base=base, _hol=hol):
+            if datetime(date.year, date.month, date.day) in _hol:
+                return 0
+            return _base.get_available_units(self, date)
+        sub = type('Holiday' + base.__name__, (base,), {'get_available_units': get_available_units})
+        i = t[1]
+        if i[0] == 'weekly':
+            n.cal = sub(start=dt(i[3]), end=dt(i[4]), days=list(i[1]), units_per_day=i[2])
+        elif i[0] == 'weeklydict':
+            n.cal = sub(start=dt(i[2]), end=dt(i[3]), units_per_day={int(a): b for a, b in i[1].items()})
+        elif i[0] == 'fixed':
+            n.cal = sub(i[1], dt(i[2]), dt(i[3]))
+        else:
+            n.cal = sub({dt(a): b for a, b in i[1].items()})
+            if i[2]:
+                n.cal.set_units({dt(a): b for a, b in i[2].items()})
+    elif k == 'weekly':
         n.cal = WeeklyCalendar(start=dt(t[3]), end=dt(t[4]), days=list(t[1]), units_per_day=t[2])
     elif k == 'weeklydict':
         n.cal = WeeklyCalendar(start=dt(t[2]), end=dt(t[3]), units_per_day={int(a): b for a, b in t[1].items()})
@@ -174,6 +208,10 @@ def day(d):
 def leaf_expect(t, d):
     """-> ('exact', v) | ('none',) | ('either', v)"""
     k = t[0]
+    if k == 'holiday':
+        if day(d) in {day(dt(x)) for x in t[2]}:
+            return ('exact', 0)
+        return leaf_expect(t[1], d)
     if k == 'direct':
         m = {}
         for a, b in t[1].items():
